@@ -9,11 +9,15 @@
 #include "log_rules.h"
 
 #include "unc_tools.h"
+#include "verif_trace.h"
 
 
 void log_rule2(const char *func, size_t line, const char *rule, Chunk *first, Chunk *second)
 {
    LOG_FUNC_ENTRY();
+#ifdef UNC_VERIF
+   verif::set_rule(rule);
+#endif
 
    if (second->IsNot(CT_NEWLINE))
    {
